@@ -165,3 +165,116 @@ def reaching_defs(fn, local):
                 IN[b], OUT[b] = inn, out
                 changed = True
     return IN, OUT
+
+
+def leaf_values(fn, op, depth=32):
+    """The values an operand can hold, followed through copies, re-assigned locals (every definition), aggregates taken apart
+    again by a matching downcast/field projection (`Ready(Ok(Some(n)))` ... `@Ready.0@Ok.0@Some.0`), references and
+    `Try::branch` (`?`). -> list of ('const', c) | ('place', local, projs) | ('call', Call, projs) | ('other', rvalue).
+    Definitions whose variant contradicts the projection are infeasible for that read and are skipped."""
+    from .mir import Call
+    out = []
+    seen = set()
+
+    def variants_for_continue():
+        return ("Ok", "Some")
+
+    def go(local, projs, d):
+        key = (local, repr(projs))
+        if key in seen or d <= 0:
+            if d <= 0:
+                out.append(("place", local, projs))
+            return
+        seen.add(key)
+        if 1 <= local <= fn.argc:
+            out.append(("place", local, projs))
+            return
+        defs = [x for x in fn.defs().get(local, []) if not fn.is_cleanup(x[0])]
+        if not defs:
+            out.append(("place", local, projs))
+            return
+        # a variable updated from itself (`n += k`) is a leaf: it has no single value to resolve to
+        if len(defs) > 1 and not projs:
+            for (dbb, si, dk, payload) in defs:
+                if dk == "assign" and not payload["p"][1] and payload["r"][0] == "use" and payload["r"][1][0] in ("c", "m"):
+                    ds = fn.origin(payload["r"][1])
+                    if ds and ds[-1][0] == "bin":
+                        for o in (ds[-1][1][2], ds[-1][1][3]):
+                            oo = fn.origin(o)
+                            if oo and oo[-1][0] == "multi" and oo[-1][1] == local:
+                                out.append(("place", local, []))
+                                return
+        for (dbb, si, dk, payload) in defs:
+            if dk == "call":
+                c = Call(fn, dbb, payload, False)
+                if re.search(r"Try>::branch$", c.callee or "") and projs and projs[0][0] == "dc" and projs[0][1] == "Continue" and c.args and c.args[0][0] in ("c", "m"):
+                    rest = projs[1:]
+                    if rest and rest[0][0] == "f":
+                        rest = rest[1:]
+                    a = c.args[0][1]
+                    for v in variants_for_continue():
+                        go(a[0], list(a[1]) + [["dc", v, 0], ["f", 0, "", ""]] + rest, d - 1)
+                    continue
+                if re.search(r"Try>::branch$", c.callee or "") and projs and projs[0][0] == "dc" and projs[0][1] == "Break":
+                    continue
+                out.append(("call", c, projs))
+                continue
+            if dk != "assign" or payload["p"][1]:
+                # a store through a projection of the local (field-wise initialisation): not followed
+                if dk == "assign" and payload["p"][1]:
+                    continue
+                out.append(("place", local, projs))
+                continue
+            r = payload["r"]
+            if r[0] == "use":
+                o = r[1]
+                if o[0] == "k":
+                    if not projs:
+                        out.append(("const", o[1]))
+                    continue
+                go(o[1][0], list(o[1][1]) + projs, d - 1)
+            elif r[0] in ("ref",) and projs and projs[0][0] == "d":
+                go(r[2][0], list(r[2][1]) + projs[1:], d - 1)
+            elif r[0] == "agg":
+                kind = r[1]
+                ops = r[2]
+                pj = list(projs)
+                if kind.get("k") == "adt":
+                    if pj and pj[0][0] == "dc":
+                        if pj[0][1] != kind.get("variant"):
+                            continue      # this definition builds another variant: infeasible for this read
+                        pj = pj[1:]
+                    if pj and pj[0][0] == "f" and pj[0][1] < len(ops):
+                        o = ops[pj[0][1]]
+                        if o[0] == "k":
+                            if len(pj) == 1:
+                                out.append(("const", o[1]))
+                            continue
+                        go(o[1][0], list(o[1][1]) + pj[1:], d - 1)
+                    elif not pj:
+                        out.append(("other", r))
+                elif kind.get("k") == "tuple" and pj and pj[0][0] == "f" and pj[0][1] < len(ops):
+                    o = ops[pj[0][1]]
+                    if o[0] == "k":
+                        if len(pj) == 1:
+                            out.append(("const", o[1]))
+                        continue
+                    go(o[1][0], list(o[1][1]) + pj[1:], d - 1)
+                else:
+                    out.append(("other", r))
+            elif r[0] == "bin" and not projs:
+                # arithmetic on the local itself (a counter): the local is the leaf
+                if ("place", local, []) not in out:
+                    out.append(("place", local, []))
+            elif r[0] == "bin" and projs and projs[0][0] == "f" and projs[0][1] == 0 and "WithOverflow" in r[1]:
+                # (sum, overflowed).0 of checked arithmetic
+                out.append(("other", r))
+            else:
+                out.append(("other", r))
+
+    if op[0] == "k":
+        return [("const", op[1])]
+    if op[0] not in ("c", "m"):
+        return [("other", op)]
+    go(op[1][0], list(op[1][1]), depth)
+    return out
